@@ -6,7 +6,7 @@ LEVEL = "model_checking"
 
 def run(tier):
     return _common.corpus_property(
-        "C09", tier, LEVEL, models=_common.TICC_MODELS[tier],
+        "C09", tier, LEVEL, models=[("MC_LoopCore", "MC_LoopCore_a.cfg"), ("TiccHeap", "TiccHeap_q.cfg")] + list(_common.TICC_MODELS[tier]),
         need=("converged", "limit_reached", "repopulated", "rounds_1", "rounds_2plus", "multi_series"),
         rule=("seeded piecewise-stationary Gaussian data sets x hyper-parameters (limits 1..10, K 2..5, W 1..6, "
               "single and joint front ends); every event of every completed run must be a step of TiccLoop with "
